@@ -6,7 +6,27 @@ use crate::vm;
 /// Parses a keyword from the input stream.
 ///
 /// TeX.2021.407 scan_keyword
+///
+/// As in TeX, blank spaces before the keyword are skipped, and they stay skipped
+///     even if the keyword does not follow.
 pub fn parse_keyword<S: TexlangState>(
+    input: &mut vm::ExpandedStream<S>,
+    keyword: &str,
+) -> txl::Result<bool> {
+    if keyword.is_empty() {
+        return Ok(true);
+    }
+    while let Some(token) = input.next()? {
+        if let token::Value::Space(_) = token.value() {
+            continue;
+        }
+        input.back(token);
+        break;
+    }
+    parse_keyword_characters(input, keyword)
+}
+
+fn parse_keyword_characters<S: TexlangState>(
     input: &mut vm::ExpandedStream<S>,
     keyword: &str,
 ) -> txl::Result<bool> {
@@ -25,7 +45,7 @@ pub fn parse_keyword<S: TexlangState>(
         return Ok(false);
     }
     // this character matched; now try to match the result of keyword
-    let result = parse_keyword(input, &keyword[c.len_utf8()..]);
+    let result = parse_keyword_characters(input, &keyword[c.len_utf8()..]);
     if let Ok(false) = result {
         // some later character did not match, reverse consuming the token.
         input.back(token);
